@@ -38,6 +38,7 @@ CONSTANTS
     AllowNil,     \* BOOLEAN: also generate the step = nil variant of unit-step slices
     ChainOnly,    \* BOOLEAN: Slice/Reshape only the newest view (chains instead of trees of views)
     WriteNewest,  \* BOOLEAN: writes go through the newest view only (else through any live view)
+    AllowReduce,  \* BOOLEAN: offer rank-reducing slices (trailing dimensions pinned)
     AllowCopy,    \* BOOLEAN: offer ReshapeCopy (detached copy of a non-contiguous view; C03 lock-step only)
     EarlyStop,    \* BOOLEAN: Finish may be taken before the bounds are exhausted (simulation)
     Emit          \* BOOLEAN: Finish prints the behaviour as JSON
@@ -119,18 +120,45 @@ WriteChoice == IF WriteNewest THEN {Len(views)} ELSE DOMAIN views
 
 Slice ==
     /\ stores # <<>> /\ ~done /\ nS < MaxSlices
+    /\ (AllowReduce => nS < MaxSlices - 1)       \* with rank-reducing slices on, the last slice is a rank-reducing one
     /\ \E vi \in ViewChoice :
        LET v == views[vi] IN
        \E sel \in SeqProd([d \in 1..Len(v.shape) |-> DimSel(v.shape[d])]) :
        \E nil \in (IF AllowNil /\ (\A d \in 1..Len(sel) : sel[d][3] = 1) THEN BOOLEAN ELSE {FALSE}) :
          LET w == [sid |-> v.sid, shape |-> Col(sel, 2), offs |-> SliceOffs(v, sel),
-                   aff |-> AffSlice(v.aff, sel), affine |-> v.affine]
+                   aff |-> IF v.affine THEN AffSlice(v.aff, sel) ELSE v.aff, affine |-> v.affine]
          IN /\ views' = Append(views, w)
             /\ stores' = stores
             /\ Log([op |-> "slice", v |-> vi, loc |-> Col(sel, 1), dims |-> Col(sel, 2),
                     step |-> Col(sel, 3), nil |-> nil, w |-> Len(views) + 1,
                     offs |-> w.offs, contig |-> Contig(w)])
     /\ nS' = nS + 1
+    /\ UNCHANGED <<fresh, nW, nR, done>>
+
+\* Rank-reducing slice, the form the generated model wrappers use for table parameters:
+\*   v.Slice(loc, dims, nil)  with  Len(dims) < rank(v):  the trailing dimensions are pinned at loc,
+\* the result has rank Len(dims) and element i is element (loc[1..k] + i, loc[k+1..]) of v.
+PinnedOffs(v, sel, pins) ==
+    LET dims == Col(sel, 2) IN
+    [k \in 1..Prod(dims) |->
+        LET i == Unrank(k - 1, dims)
+            p == [d \in 1..Len(v.shape) |-> IF d <= Len(dims) THEN sel[d][1] + i[d] ELSE pins[d - Len(dims)]]
+        IN v.offs[Pos(p, v.shape) + 1]]
+RankReduce ==
+    /\ stores # <<>> /\ ~done /\ nS < MaxSlices /\ AllowReduce
+    /\ \E vi \in ViewChoice :
+       LET v == views[vi]  r == Len(v.shape) IN
+       /\ r >= 2
+       /\ \E keep \in 1..(r - 1) :
+          \E sel \in SeqProd([d \in 1..keep |-> {x \in DimSel(v.shape[d]) : x[3] = 1}]) :
+          \E pins \in SeqProd([d \in 1..(r - keep) |-> 0..(v.shape[keep + d] - 1)]) :
+            LET w == [sid |-> v.sid, shape |-> Col(sel, 2), offs |-> PinnedOffs(v, sel, pins),
+                      aff |-> [start |-> 0, stride |-> <<>>], affine |-> FALSE]
+            IN /\ views' = Append(views, w)
+               /\ stores' = stores
+               /\ Log([op |-> "rankreduce", v |-> vi, loc |-> Col(sel, 1) \o pins, dims |-> Col(sel, 2),
+                       w |-> Len(views) + 1, offs |-> w.offs, contig |-> Contig(w)])
+    /\ nS' = MaxSlices
     /\ UNCHANGED <<fresh, nW, nR, done>>
 
 \* Reshape / MustReshape / ReshapeFast of a CONTIGUOUS view aliases the storage (C02):
@@ -285,7 +313,7 @@ Finish == /\ stores # <<>> /\ ~done
           /\ (Emit => PrintT(ToJson([case |-> hist])))
           /\ UNCHANGED <<stores, views, fresh, nS, nW, nR, hist>>
 
-Next == NewArray \/ Slice \/ Reshape \/ ReshapeCopy \/ Write \/ Finish
+Next == NewArray \/ Slice \/ RankReduce \/ Reshape \/ ReshapeCopy \/ Write \/ Finish
 Spec == Init /\ [][Next]_vars
 
 ---------------------------------------------------------------------------
